@@ -39,14 +39,34 @@ def quatSetRotationSpec (len : V3 α → α) (teps : α) (fromDir toDir : V3 α)
     else Gen.Quat.mulAssign (qInternal len f0 h0) (qInternal len h0 t0)
 
 set_option maxHeartbeats 8000000 in
-theorem quatSetRotation_eq_spec (tmin teps : α) (sqrt : α → α) (q : Quat α) (fromDir toDir : V3 α) :
+/-- for non-zero `from`, `to` (the only inputs the property speaks about) the extracted tree IS the documented case analysis -/
+theorem quatSetRotation_eq_spec (tmin teps : α) (sqrt : α → α) (q : Quat α) (fromDir toDir : V3 α)
+    (h1 : Gen.V3.length tmin sqrt fromDir ≠ 0) (h2 : Gen.V3.length tmin sqrt toDir ≠ 0) :
     Gen.Frame.quatSetRotation tmin teps sqrt q fromDir toDir = quatSetRotationSpec (Gen.V3.length tmin sqrt) teps fromDir toDir := by
   obtain ⟨fx, fy, fz⟩ := fromDir
   obtain ⟨tx, ty, tz⟩ := toDir
   simp only [Gen.Frame.quatSetRotation, quatSetRotationSpec, qInternal, qOppositeAxis, Gen.Quat.mulAssign, nrm, cross, dot, vadd]
-  generalize Gen.V3.length tmin sqrt = len
-  by_cases h1 : len ⟨fx, fy, fz⟩ = 0 <;> by_cases h2 : len ⟨tx, ty, tz⟩ = 0 <;>
-    simp only [h1, h2, if_true, if_false] <;> tree_eq
+  generalize Gen.V3.length tmin sqrt = len at h1 h2 ⊢
+  simp only [h1, h2, if_true, if_false]
+  generalize fx / len ⟨fx, fy, fz⟩ = a1
+  generalize fy / len ⟨fx, fy, fz⟩ = a2
+  generalize fz / len ⟨fx, fy, fz⟩ = a3
+  generalize tx / len ⟨tx, ty, tz⟩ = b1
+  generalize ty / len ⟨tx, ty, tz⟩ = b2
+  generalize tz / len ⟨tx, ty, tz⟩ = b3
+  by_cases hd : 0 ≤ a1 * b1 + a2 * b2 + a3 * b3
+  · simp only [hd, if_true]
+    split_ifs <;> simp_all
+  · simp only [hd, if_false]
+    by_cases hc : 8 * teps * (8 * teps) < (a1 + b1) * (a1 + b1) + (a2 + b2) * (a2 + b2) + (a3 + b3) * (a3 + b3)
+    · simp only [hc, if_true]
+      by_cases hs : len ⟨a1 + b1, a2 + b2, a3 + b3⟩ = 0
+      · simp only [hs, if_true]
+        split_ifs <;> simp_all
+      · simp only [hs, if_false]
+        split_ifs <;> first | rfl | (simp_all; done)
+    · simp only [hc, if_false]
+      split_ifs <;> simp_all
 
 end QuatTree
 end ImathVerif.C09
